@@ -29,6 +29,12 @@ def replay(payload: dict) -> int:
         w, tn = payload["witness"], payload["terminal"]
         print(f"terminal {tn} = {terms[tn]!r}; fullmatch({w!r}) = {bool(re.fullmatch(terms[tn], w))}")
         return common.EXIT_VIOLATION
+    if kind == "symbolic-registered-name":
+        from . import symname
+        r = symname._replay({"registered_name": payload["registered_name"], "text": payload["text"]})
+        print("registered name", repr(payload["registered_name"]), "; decay line", repr(r["public_text"]), "->", r["real_result"],
+              "; reproduces:", r["reproduced"])
+        return common.EXIT_VIOLATION if r["reproduced"] else common.EXIT_OK
     from . import decsweep, larkcap, lexmodel
     extra = tuple(payload.get("extra_models", ()))
     if "state" in payload and payload.get("witness") is not None:
